@@ -8,9 +8,19 @@ package main
 // Drives the REAL revision.Reconciler.Reconcile (real FsPackageCache on an
 // afero.MemMapFs wrapped by a fault injector, real parser.New(meta, obj), real
 // per-type linters, real ImageBackend over in-memory OCI images built with
-// go-containerregistry, real version.Versioner) and the REAL
-// signature.Reconciler.Reconcile over simstore, for histories of reconciles of
-// up to two revisions that share one cache.
+// go-containerregistry, real version.Versioner, real xpkg.ImageConfigStore) and
+// the REAL signature.Reconciler.Reconcile over simstore, for histories of
+// reconciles of up to three revisions that share one cache.
+//
+// As revision.Setup{Provider,Configuration,Function}Revision and the signature
+// Setup functions do, the controllers are built ONCE per world (= per process):
+// one revision.Reconciler with one parser, one ImageBackend over one fetcher, one
+// linter, one establisher and one config store per package type, one
+// signature.Reconciler with one validator per package type, and one
+// FsPackageCache for all of them. Every reconcile of a history goes through
+// these long-lived objects (the fetcher resolves the image by reference, the
+// establisher, the validator and the fault plans are keyed by revision), so that
+// state carried from one call to the next shows against the per-call model.
 
 import (
 	"archive/tar"
@@ -34,6 +44,7 @@ import (
 	kerrors "k8s.io/apimachinery/pkg/api/errors"
 	"k8s.io/apimachinery/pkg/api/meta"
 	metav1 "k8s.io/apimachinery/pkg/apis/meta/v1"
+	"k8s.io/apimachinery/pkg/apis/meta/v1/unstructured"
 	"k8s.io/apimachinery/pkg/runtime"
 	"k8s.io/apimachinery/pkg/runtime/schema"
 	"k8s.io/apimachinery/pkg/types"
@@ -74,8 +85,13 @@ type c15Faults struct {
 	StoreN int    `json:"storeN"` // write: fail once this many (compressed) bytes reached the file
 	Get    bool   `json:"get"`    // cache.Get fails (open error)
 	Del    bool   `json:"del"`    // cache.Delete fails
-	Upd    string `json:"upd"`    // "" | conflict | err  (client.Update of the revision)
+	Upd    string `json:"upd"`    // client.Update of the revision (metadata): "" | conflict | err | notfound | alreadyexists | invalid | forbidden | temporary | deadline
 	Est    bool   `json:"est"`    // Establish fails
+	EstC   string `json:"estC"`   // ... with an error of this class ("" = a plain error)
+	GetE   string `json:"getE"`   // client.Get of the revision: "" | miss (NotFound although it exists: informer cache) | err (transport error)
+	Fin    string `json:"fin"`    // the Update issued by AddFinalizer / RemoveFinalizer: "" or an error class as for Upd
+	Stat   string `json:"stat"`   // client.Status().Update of the revision: "" or an error class
+	Env    string `json:"env"`    // third-party write to the revision right after the reconciler read it (= a stale cached read): "" | touch | wipe | recreate | flip
 }
 
 // c15Oracle: facts decided by libraries/timing that the model is told.
@@ -85,15 +101,24 @@ type c15Oracle struct {
 }
 
 type c15Step struct {
-	K       string    `json:"k"`       // rec | sig
+	K       string    `json:"k"`       // rec | sig | cfg
 	R       int       `json:"r"`       // revision index
 	Active  bool      `json:"active"`  // rec: desired state during this step
 	Deleted bool      `json:"deleted"` // rec: the revision is deleted (client Delete) before this step
 	Par     bool      `json:"par"`     // rec: runs concurrently with the next step (a rec step of another revision)
-	F       c15Faults `json:"f"`
+	F       c15Faults `json:"f"`       // sig steps use getE and stat only
 	O       c15Oracle `json:"o"`
-	SigCfg  string    `json:"sigCfg"` // sig: none | some | err
-	SigOK   bool      `json:"sigOK"`  // sig: the validator's verdict
+	SigCfg  string    `json:"sigCfg"` // sig: "" (the real ImageConfigStore over the ImageConfigs of the world) | err (listing ImageConfigs fails)
+	Cfgs    []c15Cfg  `json:"cfgs"`   // cfg: the user replaces the cluster's ImageConfigs by these
+}
+
+// c15Cfg is an ImageConfig.
+type c15Cfg struct {
+	Name     string   `json:"name"`
+	Prefixes []string `json:"prefixes"` // spec.matchImages[*].prefix
+	Verif    string   `json:"verif"`    // none | cosign | nocosign   (spec.verification absent / with / without a cosign section)
+	Pull     bool     `json:"pull"`     // spec.registry.authentication.pullSecretRef set (irrelevant for verification)
+	OK       bool     `json:"ok"`       // verdict of the validator under this config
 }
 
 type c15Rev struct {
@@ -111,9 +136,10 @@ type c15Rev struct {
 }
 
 type c15Scn struct {
-	Kind    string    `json:"kind"` // rev | build
+	Kind    string    `json:"kind"` // rev | build | ids
 	Feature bool      `json:"feature"`
 	Revs    []c15Rev  `json:"revs"`
+	Cfgs    []c15Cfg  `json:"cfgs"` // ImageConfigs present from the start (sorted by name)
 	Steps   []c15Step `json:"steps"`
 }
 
@@ -145,6 +171,11 @@ func c15PadString(n, salt int) string {
 		x ^= x << 13
 		x ^= x >> 7
 		x ^= x << 17
+		if i == 0 {
+			// never a YAML number / boolean / null ("7", "y", "1e5"): the value is an annotation, a string
+			sb.WriteByte('p')
+			continue
+		}
 		sb.WriteByte(al[x%uint64(len(al))])
 	}
 	return sb.String()
@@ -518,6 +549,32 @@ func c15BuildImage(shape string, stream []byte) c15Image {
 	case "nofile":
 		l0, _ := mk(junk)
 		adds = []mutate.Addendum{{Layer: l0, Annotations: base}}
+	case "baselast":
+		// the annotated base layer is the LAST descriptor, behind unannotated layers that carry a package.yaml too
+		l0, _ := mk(c15TarFile{xpkg.StreamFile, decoy})
+		l1, _ := mk(junk, c15TarFile{xpkg.StreamFile, decoy})
+		l2, off := mk(junk, c15TarFile{xpkg.StreamFile, stream})
+		out.src, out.off = l2, off
+		adds = []mutate.Addendum{{Layer: l0}, {Layer: l1, Annotations: map[string]string{"org.example.other": "base"}}, {Layer: l2, Annotations: base}}
+	case "otherann":
+		// a layer annotated io.crossplane.xpkg with a value other than "base" is no base layer: flattened filesystem
+		l0, _ := mk(c15TarFile{xpkg.StreamFile, decoy})
+		l1, off := mk(c15TarFile{xpkg.StreamFile, stream}, junk)
+		out.src, out.off = l1, off
+		adds = []mutate.Addendum{{Layer: l0, Annotations: map[string]string{"io.crossplane.xpkg": "upbound"}}, {Layer: l1}}
+	case "many", "toomany":
+		// 256 layers are allowed, 257 are not
+		n := 255
+		if shape == "toomany" {
+			n = 256
+		}
+		for i := 0; i < n; i++ {
+			l, _ := mk(c15TarFile{fmt.Sprintf("junk/%03d", i), []byte{byte(i)}})
+			adds = append(adds, mutate.Addendum{Layer: l})
+		}
+		l, off := mk(c15TarFile{xpkg.StreamFile, stream})
+		out.src, out.off = l, off
+		adds = append(adds, mutate.Addendum{Layer: l, Annotations: base})
 	default:
 		panic("c15: unknown image shape " + shape)
 	}
@@ -532,7 +589,9 @@ func c15BuildImage(shape string, stream []byte) c15Image {
 	return out
 }
 
-func c15ImgInitFails(shape string) bool { return shape == "twoann" || shape == "nofile" }
+func c15ImgInitFails(shape string) bool {
+	return shape == "twoann" || shape == "nofile" || shape == "toomany"
+}
 
 type c15Fetcher struct {
 	img ggcrv1.Image
@@ -685,34 +744,56 @@ func c15Gzip(b []byte) []byte {
 // ---------------------------------------------------------------- world
 
 type c15RevW struct {
-	rev            c15Rev
-	stream         []byte
-	starts, ends   []int
-	image          c15Image
-	declared       [][2]string // gvk,name of the object documents (when the whole stream parses)
-	declaredUID    []string
-	declaredPad    []string
-	parses         bool
-	gk             schema.GroupKind
-	newRev         func() pkgv1.PackageRevision
-	linter         parser.Linter
-	establishCalls int
+	idx          int
+	rev          c15Rev
+	stream       []byte
+	starts, ends []int
+	image        c15Image
+	refName      string      // fully qualified name of the image reference of rev.Source ("" if it does not parse)
+	declared     [][2]string // gvk,name of the object documents (when the whole stream parses)
+	declaredUID  []string
+	declaredPad  []string
+	declaredJSON []string // the objects of an independent parse of the declared stream, as JSON
+	parses       bool
+	gk           schema.GroupKind
+	newRev       func() pkgv1.PackageRevision
+}
+
+// c15Ctl: the controllers of one package type, built once per world exactly as
+// revision.Setup*Revision / signature.Setup*Revision build them once per process.
+type c15Ctl struct {
+	ptype string
+	rec   *revision.Reconciler
+	sig   *signature.Reconciler
+	est   *c15Establisher
+	fetch *c15RegFetcher
+	val   *c15Validator
+	plans *c15Plans // faults of the revision reconciler's API calls, per revision name
+	sigPl *c15Plans // faults of the signature reconciler's API calls, per revision name
 }
 
 type c15World struct {
-	scn   *c15Scn
-	st    *Store
-	mem   afero.Fs
-	fs    *c15Fs                // fault injector around mem, shared by every reconciler
-	cache *xpkg.FsPackageCache // ONE cache instance (one mutex), as in the package manager
-	revs  []*c15RevW
-	metaS *runtime.Scheme
-	objS  *runtime.Scheme
+	scn     *c15Scn
+	st      *Store
+	mem     afero.Fs
+	fs      *c15Fs               // fault injector around mem, shared by every reconciler
+	cache   *xpkg.FsPackageCache // ONE cache instance (one mutex), as in the package manager
+	revs    []*c15RevW
+	metaS   *runtime.Scheme
+	objS    *runtime.Scheme
+	ctl     map[string]*c15Ctl
+	mu      sync.Mutex
+	cfgs    []c15Cfg // the ImageConfigs currently in the cluster
+	listErr bool     // listing ImageConfigs fails (signature steps only; never concurrent)
+	touch   int
 }
 
 func c15Scheme() *runtime.Scheme {
 	s := runtime.NewScheme()
 	if err := pkgv1.AddToScheme(s); err != nil {
+		panic(err)
+	}
+	if err := pkgv1beta1.AddToScheme(s); err != nil {
 		panic(err)
 	}
 	return s
@@ -731,8 +812,29 @@ func c15NewRevFn(ptype string) (func() pkgv1.PackageRevision, schema.GroupKind, 
 
 func c15CachePath(id string) string { return xpkg.BuildPath(c15CacheDir, id, ".gz") }
 
+var c15OracleMeta, c15OracleObj *runtime.Scheme
+
+// c15OracleSchemes: the schemes of the harness's own parser (the payload oracle), built once.
+func c15OracleSchemes() (*runtime.Scheme, *runtime.Scheme) {
+	if c15OracleMeta == nil {
+		c15OracleMeta, _ = xpkg.BuildMetaScheme()
+		c15OracleObj, _ = xpkg.BuildObjectScheme()
+	}
+	return c15OracleMeta, c15OracleObj
+}
+
+const c15Registry = "xpkg.example.org"
+
+func c15RefName(source string) string {
+	ref, err := name.ParseReference(source, name.WithDefaultRegistry(c15Registry))
+	if err != nil {
+		return ""
+	}
+	return ref.Name()
+}
+
 func c15NewWorld(scn *c15Scn) *c15World {
-	w := &c15World{scn: scn, st: NewStore(c15Scheme()), mem: afero.NewMemMapFs()}
+	w := &c15World{scn: scn, st: NewStore(c15Scheme()), mem: afero.NewMemMapFs(), ctl: map[string]*c15Ctl{}}
 	w.fs = &c15Fs{Fs: w.mem, plans: map[string]*c15FsPlan{}}
 	w.cache = xpkg.NewFsPackageCache(c15CacheDir, w.fs)
 	w.metaS, _ = xpkg.BuildMetaScheme()
@@ -741,10 +843,11 @@ func c15NewWorld(scn *c15Scn) *c15World {
 		r := &scn.Revs[i]
 		r.Key = c15CachePath(r.Name)
 		r.SKey = c15CachePath(r.Source)
-		rw := &c15RevW{rev: *r}
+		rw := &c15RevW{idx: i, rev: *r}
 		rw.stream, rw.starts, rw.ends = c15Stream(r.Docs, r.Shape)
 		rw.image = c15BuildImage(r.Img, rw.stream)
-		rw.newRev, rw.gk, rw.linter = c15NewRevFn(r.PType)
+		rw.refName = c15RefName(r.Source)
+		rw.newRev, rw.gk, _ = c15NewRevFn(r.PType)
 		rw.parses = true
 		for j, d := range r.Docs {
 			switch d.T {
@@ -761,20 +864,7 @@ func c15NewWorld(scn *c15Scn) *c15World {
 			}
 		}
 		// the revision object
-		pr := rw.newRev()
-		pr.SetName(r.Name)
-		pr.SetSource(r.Source)
-		pr.SetDesiredState(pkgv1.PackageRevisionActive)
-		pr.SetRevision(1)
-		if r.Never {
-			pp := corev1.PullNever
-			pr.SetPackagePullPolicy(&pp)
-		}
-		if r.Ignore {
-			t := true
-			pr.SetIgnoreCrossplaneConstraints(&t)
-		}
-		w.st.Seed(pr)
+		w.st.Seed(w.newRevObject(rw, pkgv1.PackageRevisionActive))
 		// cache pre-state
 		id := r.Name
 		if r.Never {
@@ -793,33 +883,275 @@ func c15NewWorld(scn *c15Scn) *c15World {
 		}
 		w.revs = append(w.revs, rw)
 	}
+	w.setConfigs(scn.Cfgs)
 	return w
 }
 
-// ---------------------------------------------------------------- fakes around the reconciler
-
-type c15Establisher struct {
-	fail    bool
-	called  bool
-	control bool
-	objs    []runtime.Object
+// oracleJSON: the objects of an independent parse (a parser of the harness's own, on the declared
+// bytes) as JSON; computed when first needed.
+func (rw *c15RevW) oracleJSON() []string {
+	if rw.declaredJSON == nil && rw.parses {
+		rw.declaredJSON = []string{}
+		ms, os := c15OracleSchemes()
+		if pkg, err := parser.New(ms, os).Parse(context.Background(), io.NopCloser(bytes.NewReader(rw.stream))); err == nil {
+			for _, o := range pkg.GetObjects() {
+				rw.declaredJSON = append(rw.declaredJSON, mustJSON(o))
+			}
+		}
+	}
+	return rw.declaredJSON
 }
 
-func (e *c15Establisher) Establish(_ context.Context, objs []runtime.Object, _ pkgv1.PackageRevision, control bool) ([]xpv1.TypedReference, error) {
-	e.called = true
-	e.control = control
-	e.objs = objs
-	if e.fail {
-		return nil, errors.New("verif: injected establish failure")
+func (w *c15World) newRevObject(rw *c15RevW, desired pkgv1.PackageRevisionDesiredState) pkgv1.PackageRevision {
+	r := rw.rev
+	pr := rw.newRev()
+	pr.SetName(r.Name)
+	pr.SetSource(r.Source)
+	pr.SetDesiredState(desired)
+	pr.SetRevision(1)
+	if r.Never {
+		pp := corev1.PullNever
+		pr.SetPackagePullPolicy(&pp)
 	}
+	if r.Ignore {
+		t := true
+		pr.SetIgnoreCrossplaneConstraints(&t)
+	}
+	return pr
+}
+
+// setConfigs replaces the ImageConfigs of the cluster.
+func (w *c15World) setConfigs(cfgs []c15Cfg) {
+	gk := schema.GroupKind{Group: pkgv1beta1.Group, Kind: pkgv1beta1.ImageConfigKind}
+	for _, u := range w.st.OfKind(gk) {
+		w.st.Remove(gk, "", u.GetName())
+	}
+	for _, c := range cfgs {
+		ic := &pkgv1beta1.ImageConfig{ObjectMeta: metav1.ObjectMeta{Name: c.Name}}
+		for _, p := range c.Prefixes {
+			ic.Spec.MatchImages = append(ic.Spec.MatchImages, pkgv1beta1.ImageMatch{Type: pkgv1beta1.Prefix, Prefix: p})
+		}
+		if c.Pull {
+			ic.Spec.Registry = &pkgv1beta1.RegistryConfig{Authentication: &pkgv1beta1.RegistryAuthentication{PullSecretRef: corev1.LocalObjectReference{Name: "pull-" + c.Name}}}
+		}
+		switch c.Verif {
+		case "cosign":
+			ic.Spec.Verification = &pkgv1beta1.ImageVerification{Provider: pkgv1beta1.ImageVerificationProviderCosign,
+				Cosign: &pkgv1beta1.CosignVerificationConfig{Authorities: []pkgv1beta1.CosignAuthority{{Name: c.Name}}}}
+		case "nocosign":
+			ic.Spec.Verification = &pkgv1beta1.ImageVerification{Provider: pkgv1beta1.ImageVerificationProviderCosign}
+		}
+		w.st.Seed(ic)
+	}
+	w.mu.Lock()
+	w.cfgs = append([]c15Cfg{}, cfgs...)
+	w.mu.Unlock()
+}
+
+func (w *c15World) cfgByName(n string) (c15Cfg, bool) {
+	w.mu.Lock()
+	defer w.mu.Unlock()
+	for _, c := range w.cfgs {
+		if c.Name == n {
+			return c, true
+		}
+	}
+	return c15Cfg{}, false
+}
+
+// c15VerifMatches: the lengths of the prefixes under which ImageConfigs with a
+// verification section match the source, per config name (an oracle written against
+// the documentation of ImageConfig, not the code: "the longest matching prefix wins").
+func (w *c15World) verifMatches(source string) map[string]int {
+	w.mu.Lock()
+	defer w.mu.Unlock()
+	out := map[string]int{}
+	for _, c := range w.cfgs {
+		if c.Verif == "none" || c.Verif == "" {
+			continue
+		}
+		for _, p := range c.Prefixes {
+			if p != "" && strings.HasPrefix(source, p) && len(p) > out[c.Name] {
+				out[c.Name] = len(p)
+			}
+		}
+	}
+	return out
+}
+
+// ctlFor returns the long-lived controllers of a package type, building them on first use.
+func (w *c15World) ctlFor(ptype string) *c15Ctl {
+	if c, ok := w.ctl[ptype]; ok {
+		return c
+	}
+	newRev, gk, linter := c15NewRevFn(ptype)
+	c := &c15Ctl{ptype: ptype, plans: &c15Plans{m: map[string]*c15ClPlan{}}, sigPl: &c15Plans{m: map[string]*c15ClPlan{}}}
+	c.fetch = &c15RegFetcher{imgs: map[string]*c15RevW{}, fail: map[string]bool{}}
+	for _, rw := range w.revs {
+		if rw.rev.PType == ptype && rw.refName != "" {
+			c.fetch.imgs[rw.refName] = rw
+		}
+	}
+	c.est = &c15Establisher{w: w, gk: gk, fail: map[string]string{}, calls: map[string]*c15EstCall{}}
+	c.val = &c15Validator{w: w}
+	flags := &feature.Flags{}
+	if w.scn.Feature {
+		flags.Enable(features.EnableAlphaSignatureVerification)
+	}
+	cl := &c15Client{Client: w.st, w: w, plans: c.plans, role: "main", gk: gk}
+	fin := &c15Client{Client: w.st, w: w, plans: c.plans, role: "fin", gk: gk}
+	c.rec = revision.NewReconciler(&rfake.Manager{Client: cl},
+		revision.WithClientApplicator(resource.ClientApplicator{Client: cl, Applicator: resource.NewAPIUpdatingApplicator(cl)}),
+		revision.WithCache(w.cache),
+		revision.WithNewPackageRevisionFn(newRev),
+		revision.WithFinalizer(resource.NewAPIFinalizer(fin, "revision.pkg.crossplane.io")),
+		revision.WithDependencyManager(c15Deps{}),
+		revision.WithEstablisher(c.est),
+		revision.WithParser(parser.New(w.metaS, w.objS)),
+		revision.WithParserBackend(revision.NewImageBackend(c.fetch, revision.WithDefaultRegistry(c15Registry))),
+		revision.WithConfigStore(xpkg.NewImageConfigStore(w.st, "crossplane-system")),
+		revision.WithLinter(linter),
+		revision.WithVersioner(version.VerifNewWithVersion(c15XPVersion)),
+		revision.WithFeatureFlags(flags),
+	)
+	scl := &c15Client{Client: w.st, w: w, plans: c.sigPl, role: "main", gk: gk}
+	c.sig = signature.NewReconciler(scl,
+		signature.WithNewPackageRevisionFn(newRev),
+		signature.WithConfigStore(xpkg.NewImageConfigStore(&c15ListClient{Client: w.st, w: w}, "crossplane-system")),
+		signature.WithValidator(c.val),
+		signature.WithDefaultRegistry(c15Registry),
+	)
+	w.ctl[ptype] = c
+	return c
+}
+
+// ---------------------------------------------------------------- fakes around the reconcilers (long-lived, keyed by revision)
+
+// c15RegFetcher is the registry: it resolves an image by its reference.
+type c15RegFetcher struct {
+	mu   sync.Mutex
+	imgs map[string]*c15RevW // fully qualified reference -> revision carrying the image
+	fail map[string]bool     // references whose fetch currently fails
+}
+
+func (f *c15RegFetcher) setFail(ref string, v bool) {
+	f.mu.Lock()
+	defer f.mu.Unlock()
+	if v {
+		f.fail[ref] = true
+	} else {
+		delete(f.fail, ref)
+	}
+}
+
+func (f *c15RegFetcher) Fetch(_ context.Context, ref name.Reference, _ ...string) (ggcrv1.Image, error) {
+	f.mu.Lock()
+	defer f.mu.Unlock()
+	if f.fail[ref.Name()] {
+		return nil, errC15Fetch
+	}
+	rw, ok := f.imgs[ref.Name()]
+	if !ok {
+		return nil, fmt.Errorf("verif: no image %s in the registry", ref.Name())
+	}
+	return rw.image.img, nil
+}
+
+func (f *c15RegFetcher) Head(context.Context, name.Reference, ...string) (*ggcrv1.Descriptor, error) {
+	return nil, errors.New("not used")
+}
+
+func (f *c15RegFetcher) Tags(context.Context, name.Reference, ...string) ([]string, error) {
+	return nil, errors.New("not used")
+}
+
+type c15EstCall struct {
+	control      bool
+	failed       bool
+	objs         []runtime.Object
+	snap         []string // JSON of the objects as they arrived
+	liveExists   bool
+	liveVerified bool
+	sameUID      bool
+}
+
+// c15Establisher records what reaches Establish. Like the real APIEstablisher it
+// labels and owns the objects it is handed IN PLACE.
+type c15Establisher struct {
+	mu    sync.Mutex
+	w     *c15World
+	gk    schema.GroupKind
+	fail  map[string]string // revision name -> error class ("plain" for a plain error)
+	calls map[string]*c15EstCall
+}
+
+func (e *c15Establisher) arm(rev, class string) {
+	e.mu.Lock()
+	defer e.mu.Unlock()
+	delete(e.calls, rev)
+	if class == "" {
+		delete(e.fail, rev)
+	} else {
+		e.fail[rev] = class
+	}
+}
+
+func (e *c15Establisher) take(rev string) *c15EstCall {
+	e.mu.Lock()
+	defer e.mu.Unlock()
+	c := e.calls[rev]
+	delete(e.calls, rev)
+	delete(e.fail, rev)
+	return c
+}
+
+func c15CondTrue(u map[string]any, typ string) bool {
+	st, _ := u["status"].(map[string]any)
+	conds, _ := st["conditions"].([]any)
+	for _, c := range conds {
+		cm, _ := c.(map[string]any)
+		if cm["type"] == typ && cm["status"] == "True" {
+			return true
+		}
+	}
+	return false
+}
+
+func (e *c15Establisher) Establish(_ context.Context, objs []runtime.Object, parent pkgv1.PackageRevision, control bool) ([]xpv1.TypedReference, error) {
+	call := &c15EstCall{control: control, objs: objs}
+	for _, o := range objs {
+		call.snap = append(call.snap, mustJSON(o))
+	}
+	// the live revision at this instant
+	if u := e.w.st.Peek(e.gk, "", parent.GetName()); u != nil {
+		call.liveExists = true
+		call.liveVerified = c15CondTrue(u.Object, string(pkgv1.TypeVerified))
+		call.sameUID = u.GetUID() == parent.GetUID()
+	}
+	e.mu.Lock()
+	class := e.fail[parent.GetName()]
+	call.failed = class != ""
+	e.calls[parent.GetName()] = call
+	e.mu.Unlock()
 	refs := make([]xpv1.TypedReference, 0, len(objs))
 	for _, o := range objs {
 		gvk := o.GetObjectKind().GroupVersionKind()
 		n := ""
 		if a, err := meta.Accessor(o); err == nil {
 			n = a.GetName()
+			// what APIEstablisher.addLabels / validate do to the objects they are handed
+			l := a.GetLabels()
+			if l == nil {
+				l = map[string]string{}
+			}
+			l["pkg.crossplane.io/revision"] = parent.GetName()
+			a.SetLabels(l)
+			a.SetOwnerReferences(append(a.GetOwnerReferences(), metav1.OwnerReference{APIVersion: "pkg.crossplane.io/v1", Kind: e.gk.Kind, Name: parent.GetName(), UID: parent.GetUID()}))
 		}
 		refs = append(refs, xpv1.TypedReference{APIVersion: gvk.GroupVersion().String(), Kind: gvk.Kind, Name: n})
+	}
+	if class != "" {
+		return nil, c15Err(class, parent.GetName())
 	}
 	return refs, nil
 }
@@ -833,48 +1165,235 @@ func (c15Deps) Resolve(context.Context, pkgmetav1.Pkg, pkgv1.PackageRevision) (i
 }
 func (c15Deps) RemoveSelf(context.Context, pkgv1.PackageRevision) error { return nil }
 
-type c15Config struct {
-	sigCfg string
-}
-
-func (c15Config) PullSecretFor(context.Context, string) (string, string, error) { return "", "", nil }
-func (c c15Config) ImageVerificationConfigFor(context.Context, string) (string, *pkgv1beta1.ImageVerification, error) {
-	switch c.sigCfg {
-	case "some":
-		return "cfg", &pkgv1beta1.ImageVerification{Provider: pkgv1beta1.ImageVerificationProviderCosign, Cosign: &pkgv1beta1.CosignVerificationConfig{}}, nil
-	case "err":
-		return "", nil, errors.New("verif: injected config store failure")
-	}
-	return "", nil, nil
-}
-
+// c15Validator is the cosign validator: its verdict is a property of (image, config).
 type c15Validator struct {
-	ok     bool
-	called bool
+	mu    sync.Mutex
+	w     *c15World
+	calls []c15ValCall
 }
 
-func (v *c15Validator) Validate(context.Context, name.Reference, *pkgv1beta1.ImageVerification, ...string) error {
-	v.called = true
-	if v.ok {
+type c15ValCall struct {
+	ref string
+	cfg string
+	ok  bool
+}
+
+func (v *c15Validator) Validate(_ context.Context, ref name.Reference, vc *pkgv1beta1.ImageVerification, _ ...string) error {
+	call := c15ValCall{ref: ref.Name()}
+	if vc != nil && vc.Cosign != nil && len(vc.Cosign.Authorities) > 0 {
+		call.cfg = vc.Cosign.Authorities[0].Name
+	}
+	if c, ok := v.w.cfgByName(call.cfg); ok {
+		call.ok = c.OK
+	}
+	v.mu.Lock()
+	v.calls = append(v.calls, call)
+	v.mu.Unlock()
+	if call.ok {
 		return nil
 	}
 	return errors.New("verif: signature does not verify")
 }
 
-// c15UpdClient injects the outcome of client.Update on the revision.
-type c15UpdClient struct {
-	client.Client
-	mode string
+func (v *c15Validator) drain() []c15ValCall {
+	v.mu.Lock()
+	defer v.mu.Unlock()
+	out := v.calls
+	v.calls = nil
+	return out
 }
 
-func (c *c15UpdClient) Update(ctx context.Context, obj client.Object, opts ...client.UpdateOption) error {
-	switch c.mode {
+// c15Err builds an API error of a class.
+type c15NetErr struct{}
+
+func (c15NetErr) Error() string   { return "verif: injected transport error: connection reset by peer" }
+func (c15NetErr) Timeout() bool   { return false }
+func (c15NetErr) Temporary() bool { return true }
+
+func c15Err(class, n string) error {
+	gr := schema.GroupResource{Group: "pkg.crossplane.io", Resource: "revisions"}
+	switch class {
 	case "conflict":
-		return kerrors.NewConflict(schema.GroupResource{Group: "pkg.crossplane.io", Resource: "revisions"}, obj.GetName(), errors.New("verif: injected conflict"))
-	case "err":
-		return errors.New("verif: injected update failure")
+		return kerrors.NewConflict(gr, n, errors.New("verif: injected conflict"))
+	case "notfound":
+		return kerrors.NewNotFound(gr, n)
+	case "alreadyexists":
+		return kerrors.NewAlreadyExists(gr, n)
+	case "invalid":
+		return kerrors.NewInvalid(schema.GroupKind{Group: gr.Group, Kind: "Revision"}, n, nil)
+	case "forbidden":
+		return kerrors.NewForbidden(gr, n, errors.New("verif: injected"))
+	case "temporary":
+		return c15NetErr{}
+	case "deadline":
+		return context.DeadlineExceeded
+	}
+	return errors.New("verif: injected failure")
+}
+
+// c15ClPlan: outcomes of the API calls one reconcile makes on its revision.
+type c15ClPlan struct {
+	getE    string
+	upd     string
+	fin     string
+	stat    string
+	env     string
+	envDone bool
+	rw      *c15RevW
+}
+
+type c15Plans struct {
+	mu sync.Mutex
+	m  map[string]*c15ClPlan
+}
+
+func (p *c15Plans) get(n string) *c15ClPlan {
+	p.mu.Lock()
+	defer p.mu.Unlock()
+	return p.m[n]
+}
+
+func (p *c15Plans) set(n string, pl *c15ClPlan) {
+	p.mu.Lock()
+	defer p.mu.Unlock()
+	if pl == nil {
+		delete(p.m, n)
+	} else {
+		p.m[n] = pl
+	}
+}
+
+// c15Client is the manager's client as a long-lived reconciler sees it: simstore
+// plus, per revision, the error classes of the current step and the third party
+// that writes to the revision right after the reconciler read it.
+type c15Client struct {
+	client.Client
+	w     *c15World
+	plans *c15Plans
+	role  string // main | fin (the client handed to the APIFinalizer)
+	gk    schema.GroupKind
+}
+
+func (c *c15Client) planFor(obj client.Object) *c15ClPlan {
+	if _, ok := obj.(pkgv1.PackageRevision); !ok {
+		return nil
+	}
+	return c.plans.get(obj.GetName())
+}
+
+func (c *c15Client) Get(ctx context.Context, key client.ObjectKey, obj client.Object, opts ...client.GetOption) error {
+	if _, ok := obj.(pkgv1.PackageRevision); !ok {
+		return c.Client.Get(ctx, key, obj, opts...)
+	}
+	p := c.plans.get(key.Name)
+	if p != nil {
+		switch p.getE {
+		case "miss":
+			return kerrors.NewNotFound(schema.GroupResource{Group: c.gk.Group, Resource: strings.ToLower(c.gk.Kind)}, key.Name)
+		case "":
+		default:
+			return c15Err("temporary", key.Name)
+		}
+	}
+	err := c.Client.Get(ctx, key, obj, opts...)
+	if err == nil && p != nil && p.env != "" {
+		c.plans.mu.Lock()
+		fire := !p.envDone
+		p.envDone = true
+		c.plans.mu.Unlock()
+		if fire {
+			c.w.thirdParty(p.rw, p.env)
+		}
+	}
+	return err
+}
+
+func (c *c15Client) Update(ctx context.Context, obj client.Object, opts ...client.UpdateOption) error {
+	if p := c.planFor(obj); p != nil {
+		class := p.upd
+		if c.role == "fin" {
+			class = p.fin
+		}
+		if class != "" {
+			return c15Err(class, obj.GetName())
+		}
 	}
 	return c.Client.Update(ctx, obj, opts...)
+}
+
+type c15StatusWriter struct {
+	client.SubResourceWriter
+	c *c15Client
+}
+
+func (s c15StatusWriter) Update(ctx context.Context, obj client.Object, opts ...client.SubResourceUpdateOption) error {
+	if p := s.c.planFor(obj); p != nil && p.stat != "" {
+		return c15Err(p.stat, obj.GetName())
+	}
+	return s.SubResourceWriter.Update(ctx, obj, opts...)
+}
+
+func (c *c15Client) Status() client.SubResourceWriter {
+	return c15StatusWriter{SubResourceWriter: c.Client.Status(), c: c}
+}
+
+// c15ListClient makes listing ImageConfigs fail while the world says so.
+type c15ListClient struct {
+	client.Client
+	w *c15World
+}
+
+func (c *c15ListClient) List(ctx context.Context, l client.ObjectList, opts ...client.ListOption) error {
+	c.w.mu.Lock()
+	bad := c.w.listErr
+	c.w.mu.Unlock()
+	if bad {
+		return errors.New("verif: injected config store failure")
+	}
+	return c.Client.List(ctx, l, opts...)
+}
+
+// thirdParty: another client writes to the revision (see c15Faults.Env).
+func (w *c15World) thirdParty(rw *c15RevW, env string) {
+	n := rw.rev.Name
+	w.mu.Lock()
+	w.touch++
+	t := w.touch
+	w.mu.Unlock()
+	// every write of the third party moves the resourceVersion (managed fields, a label)
+	touch := func(u *unstructured.Unstructured) {
+		l := u.GetLabels()
+		if l == nil {
+			l = map[string]string{}
+		}
+		l["verif/touched"] = fmt.Sprint(t)
+		u.SetLabels(l)
+	}
+	switch env {
+	case "touch":
+		w.st.Mutate(rw.gk, "", n, touch)
+	case "wipe":
+		w.st.Mutate(rw.gk, "", n, func(u *unstructured.Unstructured) { delete(u.Object, "status"); touch(u) })
+	case "flip":
+		w.st.Mutate(rw.gk, "", n, func(u *unstructured.Unstructured) {
+			touch(u)
+			cur, _, _ := unstructured.NestedString(u.Object, "spec", "desiredState")
+			next := string(pkgv1.PackageRevisionActive)
+			if cur == next {
+				next = string(pkgv1.PackageRevisionInactive)
+			}
+			_ = unstructured.SetNestedField(u.Object, next, "spec", "desiredState")
+		})
+	case "recreate":
+		desired := pkgv1.PackageRevisionActive
+		if u := w.st.Peek(rw.gk, "", n); u != nil {
+			if cur, _, _ := unstructured.NestedString(u.Object, "spec", "desiredState"); cur == string(pkgv1.PackageRevisionInactive) {
+				desired = pkgv1.PackageRevisionInactive
+			}
+		}
+		w.st.Remove(rw.gk, "", n)
+		w.st.Seed(w.newRevObject(rw, desired))
+	}
 }
 
 func c15ResClass(res reconcile.Result, err error) string {
@@ -897,6 +1416,12 @@ func c15ResClass(res reconcile.Result, err error) string {
 		{"cannot establish control of object", "err:establish"},
 		{"cannot get image verification config", "err:sigcfg"},
 		{"signature verification failed", "err:sigfail"},
+		{"cannot get package revision", "err:get"},
+		{"cannot add package revision finalizer", "err:finalizer"},
+		{"cannot remove package revision finalizer", "err:finalizer"},
+		{"cannot update package revision status", "err:status"},
+		{"cannot update status with", "err:status"},
+		{"cannot update package status", "err:status"},
 	} {
 		if strings.HasPrefix(m, p[0]) {
 			return p[1]
@@ -970,34 +1495,72 @@ func (w *c15World) stepObs(rw *c15RevW, res string) c15StepObs {
 	return o
 }
 
+func (w *c15World) runCfg(s *c15Step) (c15StepObs, []Mon) {
+	w.setConfigs(s.Cfgs)
+	o := c15StepObs{Res: "ok", Cache: w.cacheObs(), Healthy: "none", Verified: "none"}
+	if len(w.revs) > 0 {
+		// the Lean driver reports the state of revision 0 for a step that is about no revision
+		o = w.stepObs(w.revs[0], "ok")
+	}
+	return o, nil
+}
+
 func (w *c15World) runSig(s *c15Step) (c15StepObs, []Mon) {
 	rw := w.revs[s.R]
+	ctl := w.ctlFor(rw.rev.PType)
 	var mons []Mon
 	before, existed := w.getRev(rw)
-	val := &c15Validator{ok: s.SigOK}
-	r := signature.NewReconciler(w.st,
-		signature.WithNewPackageRevisionFn(rw.newRev),
-		signature.WithConfigStore(c15Config{sigCfg: s.SigCfg}),
-		signature.WithValidator(val),
-		signature.WithDefaultRegistry("xpkg.example.org"),
-	)
+	ctl.val.drain()
+	ctl.sigPl.set(rw.rev.Name, &c15ClPlan{getE: s.F.GetE, stat: s.F.Stat, rw: rw})
+	w.mu.Lock()
+	w.listErr = s.SigCfg == "err"
+	w.mu.Unlock()
 	var res reconcile.Result
 	var err error
 	if p := Guard(func() {
-		res, err = r.Reconcile(context.Background(), reconcile.Request{NamespacedName: types.NamespacedName{Name: rw.rev.Name}})
+		res, err = ctl.sig.Reconcile(context.Background(), reconcile.Request{NamespacedName: types.NamespacedName{Name: rw.rev.Name}})
 	}); p != "" {
 		mons = append(mons, Mon{Sig: "C15:panic", Why: p})
 	}
+	ctl.sigPl.set(rw.rev.Name, nil)
+	w.mu.Lock()
+	w.listErr = false
+	w.mu.Unlock()
+	calls := ctl.val.drain()
 	o := w.stepObs(rw, c15ResClass(res, err))
-	// Direct monitor: Verified becomes True only on a successful validation or when no config matches.
+	// Direct monitor: Verified becomes True only when no ImageConfig with a verification section
+	// matches the image, or the validator accepted the image under the best (longest-prefix) match.
 	if existed {
 		_, vb := c15CondNames(before)
 		wasTrue := vb == "succeeded" || vb == "skipped"
 		isTrue := o.Verified == "succeeded" || o.Verified == "skipped"
 		if isTrue && !wasTrue {
-			okWay := s.SigCfg == "none" || (s.SigCfg == "some" && s.SigOK && val.called)
-			if !okWay {
-				mons = append(mons, Mon{Sig: "C15:verified-without-validation", Why: fmt.Sprintf("Verified became True (%s) with config=%s validator ok=%v called=%v", o.Verified, s.SigCfg, s.SigOK, val.called)})
+			matches := w.verifMatches(rw.rev.Source)
+			best := 0
+			for _, l := range matches {
+				if l > best {
+					best = l
+				}
+			}
+			why := ""
+			switch {
+			case s.SigCfg == "err":
+				why = "the ImageConfigs could not be listed"
+			case o.Verified == "skipped" && len(matches) > 0:
+				why = fmt.Sprintf("verification skipped although ImageConfigs with a verification section match %s: %v", rw.rev.Source, matches)
+			case o.Verified == "succeeded":
+				okWay := false
+				for _, c := range calls {
+					if c.ref == rw.refName && c.ok && matches[c.cfg] == best && best > 0 {
+						okWay = true
+					}
+				}
+				if !okWay {
+					why = fmt.Sprintf("VerificationSucceeded for %s, but the validator calls of this reconcile were %+v and the matching configs (prefix lengths) are %v", rw.refName, calls, matches)
+				}
+			}
+			if why != "" {
+				mons = append(mons, Mon{Sig: "C15:verified-without-validation", Why: "Verified became True (" + o.Verified + "): " + why})
 			}
 		}
 	}
@@ -1008,8 +1571,7 @@ func (w *c15World) runSig(s *c15Step) (c15StepObs, []Mon) {
 type c15Pending struct {
 	s              *c15Step
 	rw             *c15RevW
-	rec            *revision.Reconciler
-	est            *c15Establisher
+	ctl            *c15Ctl
 	before         pkgv1.PackageRevision
 	existed        bool
 	verifiedBefore bool
@@ -1040,17 +1602,19 @@ func (w *c15World) runRecPair(s1, s2 *c15Step) (c15StepObs, []Mon, c15StepObs, [
 	wg.Wait()
 	o1, m1 := w.finishRec(p1)
 	o2, m2 := w.finishRec(p2)
+	// (finishRec runs after both reconciles: both observations show the world after the pair)
 	return o1, m1, o2, m2
 }
 
 func (p *c15Pending) exec() {
 	p.panicked = Guard(func() {
-		p.res, p.err = p.rec.Reconcile(context.Background(), reconcile.Request{NamespacedName: types.NamespacedName{Name: p.rw.rev.Name}})
+		p.res, p.err = p.ctl.rec.Reconcile(context.Background(), reconcile.Request{NamespacedName: types.NamespacedName{Name: p.rw.rev.Name}})
 	})
 }
 
 func (w *c15World) prepRec(s *c15Step) *c15Pending {
 	rw := w.revs[s.R]
+	ctl := w.ctlFor(rw.rev.PType)
 	ctx := context.Background()
 
 	// environment: desired state / deletion
@@ -1084,7 +1648,7 @@ func (w *c15World) prepRec(s *c15Step) *c15Pending {
 		l.calls, l.faultCall = 0, 0
 	}
 	if s.F.Read >= 0 && img.src != nil {
-		dry := revision.NewImageBackend(&c15Fetcher{img: img.img}, revision.WithDefaultRegistry("xpkg.example.org"))
+		dry := revision.NewImageBackend(&c15Fetcher{img: img.img}, revision.WithDefaultRegistry(c15Registry))
 		if pr, ok := w.getRev(rw); ok {
 			if rc, err := dry.Init(ctx, revision.PackageRevision(pr)); err == nil {
 				_, _ = io.Copy(io.Discard, rc)
@@ -1098,13 +1662,12 @@ func (w *c15World) prepRec(s *c15Step) *c15Pending {
 		img.src.faultCall = n
 		img.src.faultAt = img.off + s.F.Read
 	}
-	fetch := &c15Fetcher{img: img.img}
-	if s.F.Init {
-		fetch.err = errC15Fetch
+	if rw.refName != "" {
+		ctl.fetch.setFail(rw.refName, s.F.Init)
 	}
 
 	// cache faults, on the cache paths of this revision
-	pd := &c15Pending{s: s, rw: rw, before: before, existed: existed, verifiedBefore: verifiedBefore, deleting: deleting, refsBefore: refsBefore, cacheBefore: cacheBefore, left: "none"}
+	pd := &c15Pending{s: s, rw: rw, ctl: ctl, before: before, existed: existed, verifiedBefore: verifiedBefore, deleting: deleting, refsBefore: refsBefore, cacheBefore: cacheBefore, left: "none"}
 	plan := &c15FsPlan{writeN: -1, createFail: s.F.Store == "create", closeFail: s.F.Store == "close", openFail: s.F.Get, removeFail: s.F.Del}
 	if s.F.Store == "write" {
 		plan.writeN = s.F.StoreN
@@ -1119,41 +1682,35 @@ func (w *c15World) prepRec(s *c15Step) *c15Pending {
 	pd.paths = []string{c15CachePath(rw.rev.Name), c15CachePath(rw.rev.Source)}
 	w.fs.setPlan(plan, pd.paths...)
 
-	est := &c15Establisher{fail: s.F.Est}
-	flags := &feature.Flags{}
-	if w.scn.Feature {
-		flags.Enable(features.EnableAlphaSignatureVerification)
+	// API faults and the third party, for this revision
+	estClass := ""
+	if s.F.Est {
+		estClass = s.F.EstC
+		if estClass == "" {
+			estClass = "plain"
+		}
 	}
-	cl := &c15UpdClient{Client: w.st, mode: s.F.Upd}
-	rec := revision.NewReconciler(&rfake.Manager{Client: cl},
-		revision.WithClientApplicator(resource.ClientApplicator{Client: cl, Applicator: resource.NewAPIUpdatingApplicator(cl)}),
-		revision.WithCache(w.cache),
-		revision.WithNewPackageRevisionFn(rw.newRev),
-		revision.WithFinalizer(resource.NewAPIFinalizer(w.st, "revision.pkg.crossplane.io")),
-		revision.WithDependencyManager(c15Deps{}),
-		revision.WithEstablisher(est),
-		revision.WithParser(parser.New(w.metaS, w.objS)),
-		revision.WithParserBackend(revision.NewImageBackend(fetch, revision.WithDefaultRegistry("xpkg.example.org"))),
-		revision.WithConfigStore(c15Config{}),
-		revision.WithLinter(rw.linter),
-		revision.WithVersioner(version.VerifNewWithVersion(c15XPVersion)),
-		revision.WithFeatureFlags(flags),
-	)
-	pd.rec, pd.est = rec, est
+	ctl.est.arm(rw.rev.Name, estClass)
+	ctl.plans.set(rw.rev.Name, &c15ClPlan{getE: s.F.GetE, upd: s.F.Upd, fin: s.F.Fin, stat: s.F.Stat, env: s.F.Env, rw: rw})
 	return pd
 }
 
 func (w *c15World) finishRec(p *c15Pending) (c15StepObs, []Mon) {
-	s, rw, est := p.s, p.rw, p.est
+	s, rw := p.s, p.rw
 	before, existed, verifiedBefore, deleting, refsBefore, cacheBefore, left := p.before, p.existed, p.verifiedBefore, p.deleting, p.refsBefore, p.cacheBefore, p.left
 	w.fs.setPlan(nil, p.paths...)
+	p.ctl.plans.set(rw.rev.Name, nil)
+	if rw.refName != "" {
+		p.ctl.fetch.setFail(rw.refName, false)
+	}
+	est := p.ctl.est.take(rw.rev.Name)
 	var mons []Mon
 	if p.panicked != "" {
 		mons = append(mons, Mon{Sig: "C15:panic", Why: p.panicked})
 	}
 	o := w.stepObs(rw, c15ResClass(p.res, p.err))
-	o.Control = est.control
-	if est.called {
+	if est != nil {
+		o.Control = est.control
 		o.Est = [][2]string{}
 		for _, ob := range est.objs {
 			gvk := ob.GetObjectKind().GroupVersionKind()
@@ -1172,12 +1729,8 @@ func (w *c15World) finishRec(p *c15Pending) (c15StepObs, []Mon) {
 	}
 
 	// ------------------------------------------------------------ direct monitors
-	id := rw.rev.Name
-	if rw.rev.Never {
-		id = rw.rev.Source
-	}
 	// (1) whatever reaches Establish is exactly what the image declares
-	if est.called {
+	if est != nil {
 		why := ""
 		if !rw.parses {
 			why = "Establish reached although the declared stream does not parse"
@@ -1207,13 +1760,21 @@ func (w *c15World) finishRec(p *c15Pending) (c15StepObs, []Mon) {
 				sig = "C15:installed-truncated-on-store-failure"
 			}
 			mons = append(mons, Mon{Sig: sig, Why: why + fmt.Sprintf(" (revision %s, cache before: %v)", rw.rev.Name, cacheBefore)})
+		} else if want := rw.oracleJSON(); len(want) == len(est.snap) {
+			// ... down to the last field: compared with an independent parse of the declared bytes
+			for i := range est.snap {
+				if est.snap[i] != want[i] {
+					mons = append(mons, Mon{Sig: "C15:installed-payload-differs", Why: fmt.Sprintf("object %d (%s %s) reached Establish as %s, the image declares %s", i, rw.declared[i][0], rw.declared[i][1], c15Short(est.snap[i], want[i]), c15Short(want[i], est.snap[i]))})
+					break
+				}
+			}
 		}
-		// an image the specification calls invalid (two base layers, no package.yaml) declares nothing
+		// an image the specification calls invalid (two base layers, no package.yaml, more than 256 layers) declares nothing
 		if c15ImgInitFails(rw.rev.Img) && cacheBefore[s.R] == "absent" {
-			mons = append(mons, Mon{Sig: "C15:installed-from-invalid-image", Why: fmt.Sprintf("a package was established from an image of layout %q, which has no well-defined package stream", rw.rev.Img)})
+			mons = append(mons, Mon{Sig: "C15:installed-from-invalid-image", Why: fmt.Sprintf("a package was established from an image of layout %q, which has no well-defined package stream / must be rejected", rw.rev.Img)})
 		}
 		// (3) gates
-		mons = append(mons, c15GateMonitors(w, rw, s, verifiedBefore)...)
+		mons = append(mons, c15GateMonitors(w, rw, s, est)...)
 	}
 	// (2) a cache entry that reads back cleanly is the complete stream of its revision
 	for i, c := range o.Cache {
@@ -1224,19 +1785,59 @@ func (w *c15World) finishRec(p *c15Pending) (c15StepObs, []Mon) {
 	// (4) verification gate also guards every side effect
 	if w.scn.Feature && existed && !deleting && !verifiedBefore {
 		changed := o.Cache[s.R] != cacheBefore[s.R]
-		if est.called || changed || o.Healthy == "healthy" {
-			mons = append(mons, Mon{Sig: "C15:unverified-progress", Why: fmt.Sprintf("verification enabled and Verified!=True, yet establish=%v cacheChanged=%v healthy=%s", est.called, changed, o.Healthy)})
+		if est != nil || changed || (o.Healthy == "healthy" && s.F.Env == "") {
+			mons = append(mons, Mon{Sig: "C15:unverified-progress", Why: fmt.Sprintf("verification enabled and Verified!=True, yet establish=%v cacheChanged=%v healthy=%s", est != nil, changed, o.Healthy)})
 		}
 	}
-	// (5) Healthy=True only after Establish, or on the inactive-with-references shortcut
+	// (5) Healthy=True only after a successful Establish, or on the inactive-with-references shortcut
 	if o.Healthy == "healthy" && existed {
 		hb, _ := c15CondNames(before)
-		if hb != "healthy" && !est.called && !(!s.Active && refsBefore > 0) {
+		if hb != "healthy" && est == nil && !(!s.Active && refsBefore > 0) {
 			mons = append(mons, Mon{Sig: "C15:healthy-without-establish", Why: "revision became Healthy in a reconcile that established nothing"})
 		}
+		if hb != "healthy" && est != nil && est.failed {
+			mons = append(mons, Mon{Sig: "C15:healthy-despite-establish-failure", Why: fmt.Sprintf("Establish failed (%s), yet the revision became Healthy", s.F.EstC)})
+		}
 	}
-	_ = id
+	// (6) the object references the revision records are the declared objects, and change only by a successful Establish
+	if pr, ok := w.getRev(rw); ok && s.F.Env == "" {
+		refs := pr.GetObjects()
+		if est != nil && !est.failed && o.Res == "ok" && o.Healthy == "healthy" && rw.parses {
+			want := map[string]int{}
+			for _, d := range rw.declared {
+				g, v, k := c15SplitGVK(d[0])
+				want[c15APIVersion(g, v)+"|"+k+"|"+d[1]]++
+			}
+			for _, r := range refs {
+				want[r.APIVersion+"|"+r.Kind+"|"+r.Name]--
+			}
+			for k, v := range want {
+				if v != 0 {
+					mons = append(mons, Mon{Sig: "C15:refs-not-declared", Why: fmt.Sprintf("after a successful Establish status.objectRefs differs from the declared objects at %s (declared minus recorded: %+d)", k, v)})
+					break
+				}
+			}
+		} else if existed && (est == nil || est.failed) && len(refs) != refsBefore {
+			mons = append(mons, Mon{Sig: "C15:refs-changed-without-establish", Why: fmt.Sprintf("status.objectRefs went from %d to %d entries in a reconcile without a successful Establish", refsBefore, len(refs))})
+		}
+	}
 	return o, mons
+}
+
+func c15Short(a, b string) string {
+	// the neighbourhood of the first difference
+	i := 0
+	for i < len(a) && i < len(b) && a[i] == b[i] {
+		i++
+	}
+	lo, hi := i-40, i+60
+	if lo < 0 {
+		lo = 0
+	}
+	if hi > len(a) {
+		hi = len(a)
+	}
+	return "…" + a[lo:hi] + "…"
 }
 
 func meta2WasDeleted(pr pkgv1.PackageRevision) bool {
@@ -1273,7 +1874,7 @@ func c15MetaKind(ptype string) string {
 	return "Provider"
 }
 
-func c15GateMonitors(w *c15World, rw *c15RevW, s *c15Step, verifiedBefore bool) []Mon {
+func c15GateMonitors(w *c15World, rw *c15RevW, s *c15Step, est *c15EstCall) []Mon {
 	var mons []Mon
 	var metas []c15Doc
 	for _, d := range rw.rev.Docs {
@@ -1307,8 +1908,9 @@ func c15GateMonitors(w *c15World, rw *c15RevW, s *c15Step, verifiedBefore bool) 
 			break
 		}
 	}
-	if w.scn.Feature && !verifiedBefore {
-		mons = append(mons, Mon{Sig: "C15:installed-unverified", Why: "signature verification enabled, Verified!=True, yet the package was established"})
+	// the verification gate is judged on the LIVE revision at the instant Establish is called
+	if w.scn.Feature && !(est.liveExists && est.liveVerified) {
+		mons = append(mons, Mon{Sig: "C15:installed-unverified", Why: fmt.Sprintf("signature verification enabled, yet the package was established while the live revision (exists=%v, same uid as the one reconciled=%v) has Verified!=True", est.liveExists, est.sameUID)})
 	}
 	return mons
 }
@@ -1319,6 +1921,13 @@ func c15Run(scn *c15Scn) (c15Obs, []Mon) {
 	var mons []Mon
 	for i := 0; i < len(scn.Steps); i++ {
 		s := &scn.Steps[i]
+		if s.K == "cfg" {
+			s.Par = false
+			o, m := w.runCfg(s)
+			obs.Steps = append(obs.Steps, o)
+			mons = append(mons, m...)
+			continue
+		}
 		if s.R < 0 || s.R >= len(w.revs) {
 			continue
 		}
@@ -1353,5 +1962,3 @@ func c15SortedKeys(m map[string]bool) []string {
 	sort.Strings(out)
 	return out
 }
-
-var _ = metav1.Now
